@@ -77,6 +77,7 @@ def run(prog, chk):
     from props import strops
     chk.rule(strops.check_for, prog, chk, "C14")
     chk.rule(strops.check_evaluation_sites, prog, chk)  # "exactly once": the places that evaluate a string are the reviewed ones  # A14.str-ops: how this property's strings are cut up is a reviewed, frozen inventory
+    chk.rule(value_equality_is_structural, prog, chk)
 
 
 def nesting_counter_balanced(prog, chk):
@@ -635,3 +636,19 @@ def single_precision_only(prog, chk):
         chk.bad("A14.single-precision", f"{b.short}:f64", b.where(), f"{b.short} holds an f64 value (local _{i}): arithmetic carried out in double precision and rounded once gives different results from IEEE single-precision evaluation step by step")
     if not wide:
         chk.ok("A14.single-precision", "scan", "src/expression.rs", f"{n32} f32 locals, no f64 in the evaluator")
+
+
+
+def value_equality_is_structural(prog, chk):
+    """`eq()` / `ne()` / `in()` and the infix `eq` / `ne` compare values, not their printed form: ExprValue's PartialEq is
+    the derived one, or at least does not go through the text rendering (to_string_vec / fstr round a number to three
+    decimals: 1.0004 would equal 1, and the two spellings of the operator would disagree)"""
+    impls = [b for b in prog.bodies.values() if b.unit == "svgdx-lib" and "svgdx::expression::ExprValue as std::cmp::PartialEq" in b.path and b.path.split("::")[-1] in ("eq", "ne") and b.kind != "Closure"]
+    if not impls:
+        chk.undecided("A16.value-equality", "ExprValue", "src/expression.rs", "no PartialEq implementation for ExprValue found")
+        return
+    for b in impls:
+        chk.touch(b)
+        scope = [b] + prog.closures_of(b)
+        rend = [(x, bb, t, c) for x in scope for (bb, t, c) in x.call_sites(lambda c: c.path.split("::")[-1] in ("to_string_vec", "to_string", "fstr", "format") and ("svgdx::" in c.path or "ToString" in c.path or "fmt::format" in c.path))]
+        chk.ob(not rend, "A16.value-equality", f"ExprValue::{b.path.split('::')[-1]}", b.where(), "values are compared as values", f"ExprValue's equality compares the *rendered* values ({rend[0][3].path.split('::')[-1] if rend else ''}()): numbers that differ beyond the third decimal are equal for eq() / ne() / in() - eq(1.0004, 1) is 1 while `1.0004 eq 1` is 0")
